@@ -102,9 +102,17 @@ func (d *driver) fail(what string, err error) {
 	panic(crashed{d.variant, fmt.Sprintf("%s: %v\n%s", what, err, s)})
 }
 
-func (d *driver) w8(v uint8)   { d.in.WriteByte(v) }
-func (d *driver) w32(v uint32) { var b [4]byte; binary.LittleEndian.PutUint32(b[:], v); d.in.Write(b[:]) }
-func (d *driver) w64(v uint64) { var b [8]byte; binary.LittleEndian.PutUint64(b[:], v); d.in.Write(b[:]) }
+func (d *driver) w8(v uint8) { d.in.WriteByte(v) }
+func (d *driver) w32(v uint32) {
+	var b [4]byte
+	binary.LittleEndian.PutUint32(b[:], v)
+	d.in.Write(b[:])
+}
+func (d *driver) w64(v uint64) {
+	var b [8]byte
+	binary.LittleEndian.PutUint64(b[:], v)
+	d.in.Write(b[:])
+}
 
 func (d *driver) flush(op byte) {
 	if err := d.in.Flush(); err != nil {
